@@ -1572,82 +1572,13 @@ def write_if_changed(path, text):
     return True
 
 
-# ---------------------------------------------------------------------------- Coq value parser
-def parse_coq_value(txt):
-    toks = re.findall(r'"(?:[^"]|"")*"|-?\d+|[A-Za-z_][A-Za-z0-9_\']*|[\[\]();,]', txt)
-    pos = [0]
-
-    def atom():
-        t = toks[pos[0]]
-        pos[0] += 1
-        if t == "[":
-            items = []
-            if toks[pos[0]] == "]":
-                pos[0] += 1
-                return items
-            while True:
-                items.append(app())
-                t2 = toks[pos[0]]
-                pos[0] += 1
-                if t2 == "]":
-                    return items
-                assert t2 == ";", t2
-        if t == "(":
-            items = [app()]
-            while toks[pos[0]] == ",":
-                pos[0] += 1
-                items.append(app())
-            assert toks[pos[0]] == ")", toks[pos[0]]
-            pos[0] += 1
-            return items[0] if len(items) == 1 else tuple(items)
-        if re.fullmatch(r"-?\d+", t):
-            return int(t)
-        if t.startswith('"'):
-            return t[1:-1].replace('""', '"')
-        if t == "true":
-            return True
-        if t == "false":
-            return False
-        if t == "None":
-            return None
-        if t == "Some":
-            return ("Some", atom())
-        return t
-
-    def app():
-        return atom()
-
-    return app()
+# ---------------------------------------------------------------------------- extracted model
+def hexz(v):
+    return ("-%x" % -v) if v < 0 else ("%x" % v)
 
 
-def coq_query(name, body, timeout=1200):
-    d = os.path.join(vf.BUILD, "scalar")
-    os.makedirs(d, exist_ok=True)
-    f = os.path.join(d, name + ".v")
-    open(f, "w").write(body)
-    rc, out = vf.sh(["coqc", "-Q", os.path.join(vf.COQ, "theories"), "WB", f], cwd=d, timeout=timeout)
-    if rc != 0:
-        raise RuntimeError("coq query %s failed:\n%s" % (name, out[-3000:]))
-    res = {}
-    for m in re.finditer(r"\s*= \(\"(\w+)\",\s*(.*?)\)\s*\n\s*: ", out, re.S):
-        res[m.group(1)] = parse_coq_value(m.group(2))
-    return res, out
-
-
-def zlist(xs):
-    return "[" + "; ".join(zlit(x) for x in xs) + "]%Z"
-
-
-QUERY_HEAD = """From Coq Require Import ZArith List String Bool.
-From WB Require Import Scalar.Expr Scalar.ScalarSpec Scalar.Normalize Scalar.Generated.
-Import ListNotations.
-Open Scope Z_scope.
-Definition NONE := 2 ^ 80.
-Definition ov (o : option Z) : Z := match o with Some v => v | None => NONE end.
-Definition first_bad {A} (f : A -> Z -> bool) (a : A) (xs : list Z) : Z :=
-  match find (fun x => negb (f a x)) xs with Some x => x | None => NONE end.
-"""
-NONE = 1 << 80
+def unhex(t):
+    return None if t == "N" else int(t, 16)
 
 
 class Result:
@@ -1655,7 +1586,7 @@ class Result:
 
 
 def gather(log=vf.log):
-    """Run every generator on the probe worlds, scrape and translate.  Returns (sites, casts, errors)."""
+    """Run every generator on the probe worlds, scrape and translate.  Returns (sites, casts, errors, raw)."""
     ok, exe, blog = genlib.build()
     if not ok:
         raise RuntimeError("genlib build failed:\n" + blog[-3000:])
@@ -1685,75 +1616,167 @@ def gather(log=vf.log):
     return sites, casts, errors, raw
 
 
-def regenerate(inputs=None, big_inputs=None, log=vf.log):
+def regenerate(inputs=None, big_inputs=None, log=vf.log, native=False):
     """The whole translator step (under a lock: C14 and the C04 leg may run at the same time).
-    Returns a Result with: sites, casts, errors, verdicts (name -> dict), cast_verdicts, spec_mirror_ok."""
+    Returns a Result with: sites, casts, errors, verdicts (name -> dict), cast_verdicts, spec_mirror_ok,
+    and with native=True the native (rustc/clang) evaluations of the scraped Rust and C text compared with
+    the Coq semantics (R.native, R.native_mismatches, R.native_error)."""
     with vf.Lock("scalar"):
-        return _regenerate(inputs, big_inputs, log)
+        return _regenerate(inputs, big_inputs, log, native)
 
 
-def _regenerate(inputs, big_inputs, log):
+def _empty(R, inputs):
+    R.verdicts, R.cast_verdicts, R.spec_mirror_ok, R.behaviour, R.spec_mirror_mismatches = {}, {}, False, {}, []
+    R.inputs = inputs or []
+    R.native, R.native_error, R.native_mismatches, R.native_evaluations = {}, None, [], 0
+    R.n_unique_convs = R.n_unique_casts = 0
+
+
+def _regenerate(inputs, big_inputs, log, native):
     R = Result()
     R.sites, R.casts, R.errors, R.raw = gather(log)
     R.generated_changed = write_if_changed(os.path.join(vf.COQ, "theories", "Scalar", "Generated.v"), emit_generated(R.sites, R.casts))
-    ok, out = vf.coq_make(["theories/Scalar/Generated.vo", "theories/Scalar/NormalizeProofs.vo"])
+    sd = os.path.join(vf.COQ, "theories", "Scalar")
+    srcs = [os.path.join(sd, f) for f in ("Expr.v", "ScalarSpec.v", "Normalize.v", "NormalizeProofs.v", "Generated.v")] + \
+           [os.path.join(vf.COQ, "theories", "Extract", "ExScalar.v")]
+    outs = [os.path.join(sd, "Generated.vo"), os.path.join(sd, "NormalizeProofs.vo"), os.path.join(vf.COQ, "theories", "Extract", "ExScalar.vo"),
+            os.path.join(vf.BUILD, "extracted", "scalar_model.ml")]
+    if all(os.path.exists(v) for v in outs) and min(os.path.getmtime(v) for v in outs) > max(os.path.getmtime(f) for f in srcs):
+        ok, out = True, "up to date"
+    else:
+        ok, out = vf.coq_make(["theories/Scalar/NormalizeProofs.vo", "theories/Extract/ExScalar.vo"])
     R.generated_builds = ok
-    if not ok:
-        R.errors.append(("*", "coq", "Generated.v does not compile:\n" + out[-2000:]))
-        R.verdicts, R.cast_verdicts, R.spec_mirror_ok = {}, {}, False
-        write_props(R)
-        return R
     inputs = inputs if inputs is not None else boundary_inputs()
     big = big_inputs if big_inputs is not None else inputs
-    names = [(s, suf) for s in R.sites for suf, _ in s.coq]
-    q = [QUERY_HEAD]
-    q.append("Definition small : list Z := %s." % zlist(inputs))
-    q.append("Definition big : list Z := %s." % zlist(big))
-    q.append('Eval vm_compute in ("check", map check_conv all_conversions).')
-    q.append('Eval vm_compute in ("elab", map (fun c => match elab (c_lex c) with Some _ => true | None => false end) all_conversions).')
-    q.append('Eval vm_compute in ("bad", map (fun c => first_bad agrees_at c big) all_conversions).')
-    q.append('Eval vm_compute in ("bool01", map bool01_ok all_conversions).')
-    q.append('Eval vm_compute in ("evals", map (fun c => map (fun x => ov (eval_l (c_lex c) x)) small) all_conversions).')
-    q.append('Eval vm_compute in ("speclower", map (fun t => map (spec_lower t) small) all_sty).')
-    q.append('Eval vm_compute in ("speclift", map (fun t => map (fun x => ov (spec_lift t x)) small) all_sty).')
-    q.append('Eval vm_compute in ("ccheck", map check_cast all_casts).')
-    q.append('Eval vm_compute in ("celab", map (fun c => match elab (k_lex c) with Some _ => true | None => false end) all_casts).')
-    q.append('Eval vm_compute in ("cbad", map (fun c => first_bad cast_agrees_at c big) all_casts).')
-    q.append('Eval vm_compute in ("csignext", map (fun c => map (fun x => ov (eval_l (k_lex c) x)) [-1; 2147483648; 4294967295; 2147483647]) all_casts).')
-    res, raw = coq_query("Query", "\n".join(q) + "\n")
-    need_keys = ["check", "elab", "bad", "bool01", "evals", "speclower", "speclift", "ccheck", "celab", "cbad", "csignext"]
-    for k in need_keys:
-        if k not in res:
-            raise RuntimeError("coq query: missing answer %s\n%s" % (k, raw[-2000:]))
+    if not ok:
+        R.errors.append(("*", "coq", "Generated.v / ExScalar.v does not compile:\n" + out[-2000:]))
+        _empty(R, inputs)
+        write_props(R)
+        return R
+    ok, exe, olog = vf.ocaml_build("scalar_driver", ["scalar_model"], ["util.ml", "scalar_driver.ml"])
+    if not ok:
+        R.errors.append(("*", "coq", "extracted model does not build:\n" + olog[-2000:]))
+        _empty(R, inputs)
+        write_props(R)
+        return R
     R.inputs = inputs
-    R.verdicts = {}
-    for i, (s, suf) in enumerate(names):
-        bad = res["bad"][i]
-        R.verdicts[s.ident(suf)] = {"site": s, "suffix": suf, "check": res["check"][i], "elab": res["elab"][i],
-                                    "bad": None if bad == NONE else bad, "bool01": res["bool01"][i],
-                                    "evals": [None if v == NONE else v for v in res["evals"][i]]}
-    R.cast_verdicts = {}
+    R.native, R.native_error, R.native_mismatches, R.native_evaluations = {}, None, [], 0
+    if native:
+        try:
+            if ("rust", "scalar") in R.raw:
+                R.native.update(native_rust(R.sites, inputs, R.raw[("rust", "scalar")]["w.rs"]))
+            if ("c", "scalar") in R.raw:
+                R.native.update(native_c(R.sites, inputs, R.raw[("c", "scalar")]["w.c"]))
+        except RuntimeError as e:
+            R.native_error = str(e)
+    names = [(s, suf) for s in R.sites for suf, _ in s.coq]
+    idx = {s.ident(suf): i for i, (s, suf) in enumerate(names)}           # order of all_conversions
     modelled = [k for k in R.casts if k.coq is not None]
-    for i, k in enumerate(modelled):
-        bad = res["cbad"][i]
-        R.cast_verdicts[k.ident] = {"site": k, "check": res["ccheck"][i], "elab": res["celab"][i],
-                                    "bad": None if bad == NONE else bad, "probe": res["csignext"][i]}
-    # spec mirror
-    mism = []
+    cidx = {k.ident: i for i, k in enumerate(modelled)}                  # order of all_casts
+    # identical (language, direction, type, expression) records (the import and the export site usually emit
+    # the same template) are evaluated once
+    rep, rep_of = {}, {}
+    for s, suf in names:
+        k = (s.lang, s.dir, s.ty, dict(s.coq)[suf])
+        rep.setdefault(k, s.ident(suf))
+        rep_of[s.ident(suf)] = rep[k]
+    ureps = sorted(set(rep_of.values()), key=lambda n: idx[n])
+    crep, crep_of = {}, {}
+    for k in modelled:
+        kk = (k.lang, k.cast, k.coq)
+        crep.setdefault(kk, k.ident)
+        crep_of[k.ident] = crep[kk]
+    cureps = sorted(set(crep_of.values()), key=lambda n: cidx[n])
+    R.n_unique_convs, R.n_unique_casts = len(ureps), len(cureps)
+    bigs = " ".join(hexz(x) for x in big)
+    cmds, tags = ["count"], [("count",)]
+
+    def add(cmd, *tag):
+        cmds.append(cmd); tags.append(tag)
+    for nm in ureps:
+        i = idx[nm]
+        add("chk c %d" % i, "chk", nm); add("elab c %d" % i, "elab", nm); add("b01 %d" % i, "b01", nm)
+        add("bad c %d %s" % (i, bigs), "bad", nm)
+    for nm in cureps:
+        i = cidx[nm]
+        add("chk k %d" % i, "cchk", nm); add("elab k %d" % i, "celab", nm)
+        add("bad k %d %s" % (i, bigs), "cbad", nm)
+        add("ev k %d -1 80000000 ffffffff 7fffffff" % i, "cprobe", nm)
+    all_idents = set(idx)
+    nat_lists = []
+    for ident, modes in sorted(R.native.items()):
+        for mode, vals in sorted(modes.items()):
+            nm = ident + "_dbg" if (mode == "debug" and ident + "_dbg" in all_idents) else ident
+            nat_lists.append((nm, mode, vals))
+            add("ev c %d %s" % (idx[nm], " ".join(hexz(x) for x, _ in vals)), "nat", len(nat_lists) - 1)
+    beh_names = [s.ident(suf) for s, suf in names if s.dir == "lift" and s.ty in ("bool", "char") and s.site == "export-param"]
+    for nm in beh_names:
+        add("ev c %d 2 100 d800 110000" % idx[nm], "beh", nm)
+    mir = [x for x in inputs]
     for ti, t in enumerate(SCALARS):
-        for xi, x in enumerate(inputs):
-            if res["speclower"][ti][xi] != spec_lower(t, x) and wit_value(t, x):
-                mism.append(("lower", t, x, res["speclower"][ti][xi], spec_lower(t, x)))
-            if 0 <= x < (1 << core_bits(t)):
-                c = res["speclift"][ti][xi]
-                p = spec_lift(t, x)
-                if (None if c == NONE else c) != p:
-                    mism.append(("lift", t, x, c, p))
+        lo = [x for x in mir if wit_value(t, x)]
+        li = [x for x in mir if 0 <= x < (1 << core_bits(t))]
+        add("lower %d %s" % (ti, " ".join(hexz(x) for x in lo)), "mlower", t, lo)
+        add("lift %d %s" % (ti, " ".join(hexz(x) for x in li)), "mlift", t, li)
+    outl = vf.run_filter([exe], cmds, shards=min(vf.NCPU, max(1, len(cmds) // 40)), timeout=3000)
+    if outl[0].split() != [str(len(names)), str(len(modelled))]:
+        raise RuntimeError("extracted model is stale: it has %s conversions/casts, Generated.v has %d/%d" % (outl[0], len(names), len(modelled)))
+    A = {}
+    mism = []
+    probes, behs = {}, {}
+    for tag, o in zip(tags, outl):
+        if o.startswith("MODEL-EXN") or o == "?":
+            raise RuntimeError("scalar_driver: %s -> %s" % (tag, o))
+        k = tag[0]
+        if k in ("chk", "elab", "b01", "cchk", "celab"):
+            A[(k, tag[1])] = (o == "1")
+        elif k in ("bad", "cbad"):
+            A[(k, tag[1])] = None if o == "-" else int(o, 16)
+        elif k == "cprobe":
+            probes[tag[1]] = [unhex(t) for t in o.split()]
+        elif k == "beh":
+            behs[tag[1]] = [unhex(t) for t in o.split()]
+        elif k == "nat":
+            nm, mode, vals = nat_lists[tag[1]]
+            model = [unhex(t) for t in o.split()]
+            R.native_evaluations += len(vals)
+            bad = [(x, r, m) for (x, r), m in zip(vals, model) if (m is None) != (r == "P") or (m is not None and m != r)]
+            if bad:
+                x, r, m = bad[0]
+                R.native_mismatches.append({"site": nm, "mode": mode, "input": x, "native": "panic" if r == "P" else r,
+                                            "model": "None (trap)" if m is None else m, "count": len(bad)})
+        elif k == "mlower":
+            for x, t_ in zip(tag[2], o.split()):
+                if int(t_, 16) != spec_lower(tag[1], x):
+                    mism.append(("lower", tag[1], x, "coq %s" % t_, "python %s" % spec_lower(tag[1], x)))
+        elif k == "mlift":
+            for x, t_ in zip(tag[2], o.split()):
+                if unhex(t_) != spec_lift(tag[1], x):
+                    mism.append(("lift", tag[1], x, "coq %s" % t_, "python %s" % spec_lift(tag[1], x)))
+    R.verdicts = {}
+    for s, suf in names:
+        nm = s.ident(suf)
+        r = rep_of[nm]
+        R.verdicts[nm] = {"site": s, "suffix": suf, "check": A[("chk", r)], "elab": A[("elab", r)], "bad": A[("bad", r)],
+                          "bool01": A[("b01", r)]}
+    R.behaviour = {}
+    for nm, vals in behs.items():
+        st = R.verdicts[nm]["site"]
+        allv = dict(zip([2, 256, 55296, 1114112], vals))
+        R.behaviour[nm] = {("0x%x" % p): ("trap/panic/undefined" if allv[p] is None else allv[p])
+                           for p in ([2, 256] if st.ty == "bool" else [55296, 1114112])}
+    R.cast_verdicts = {}
+    for k in modelled:
+        r = crep_of[k.ident]
+        R.cast_verdicts[k.ident] = {"site": k, "check": A[("cchk", r)], "elab": A[("celab", r)], "bad": A[("cbad", r)],
+                                    "probe": [NONE if v is None else v for v in probes[r]]}
     R.spec_mirror_ok = not mism
     R.spec_mirror_mismatches = mism[:5]
     write_props(R)
     return R
 
+
+NONE = 1 << 80
 
 PROPS_HEADER = """(** GENERATED by lib/scalar.py — DO NOT EDIT.  One theorem per conversion site scraped from the
     generators' current output (Generated.v).  The stable, hand-written statements are in
@@ -1799,3 +1822,266 @@ def write_props(R):
                        % (nm, nm, nm, zlit(v["bad"])))
     R.n_theorems = {"conv_ok": n_ok, "refuted": n_ref, "exhaustive": n_exh}
     R.props_changed = write_if_changed(os.path.join(vf.COQ, "theories", "Scalar", "GeneratedProps.v"), "\n\n".join(out) + "\n")
+
+
+# ============================================================================================
+# native evaluation of the scraped text (rustc, clang): model validation + search on the real text
+# ============================================================================================
+def in_cty(cty, v):
+    lo, hi = CTY_RANGE[cty]
+    return lo <= v < hi
+
+
+def site_inputs(s, inputs):
+    """inputs a site can be run on natively: values of the variable's type (chars: scalar values only)."""
+    cty = site_src_cty(s)
+    xs = [v for v in inputs if in_cty(cty, v)]
+    if (s.lang == "rust" and s.src == "char") or (s.lang == "moonbit" and s.src == "Char"):
+        xs = [v for v in xs if is_scalar_value(v)]
+    return xs
+
+
+RUST_ARG = {"bool": "(v != 0)", "char": "char::from_u32(v as u32).unwrap()", "f32": "f32::from_bits(v as u32)", "f64": "f64::from_bits(v as u64)"}
+RUST_RES = {"bool": "(r as i128)", "char": "(r as u32 as i128)", "f32": "(r.to_bits() as i128)", "f64": "(r.to_bits() as i128)"}
+
+
+def native_rust(sites, inputs, rs_text, tag="scalar"):
+    """-> {ident: {"release": [(x, value|'P')...], "debug": [...]}}; raises RuntimeError if rustc fails."""
+    d = os.path.join(vf.BUILD, "scalar", "native")
+    os.makedirs(d, exist_ok=True)
+    m = re.search(r"\nmod _rt \{", rs_text)
+    rt = "mod _rt {" + balanced(rs_text, m.end() - 1) + "}\n" if m else ""
+    fns, arms = [], []
+    rsites = [s for s in sites if s.lang == "rust"]
+    for i, s in enumerate(rsites):
+        fns.append("unsafe fn f%d(%s: %s) -> %s { %s }" % (i, s.var, s.src, s.dst, s.text))
+        arg = RUST_ARG.get(s.src, "(v as %s)" % s.src)
+        res = RUST_RES.get(s.dst, "(r as i128)")
+        arms.append("%d => { let a = %s; match std::panic::catch_unwind(move || unsafe { f%d(a) }) { Ok(r) => println!(\"{}\", %s), Err(_) => println!(\"P\") } }"
+                    % (i, arg, i, res))
+    prog = "#![allow(warnings)]\n" + rt + "\n".join(fns) + """
+fn main() {
+    std::panic::set_hook(Box::new(|_| {}));
+    let mut line = String::new();
+    while std::io::stdin().read_line(&mut line).unwrap() > 0 {
+        { let mut it = line.split_whitespace();
+          let i: usize = it.next().unwrap().parse().unwrap();
+          let v: i128 = it.next().unwrap().parse().unwrap();
+          match i {
+""" + "\n".join("            " + a for a in arms) + """
+            _ => println!("?"),
+          } }
+        line.clear();
+    }
+}
+"""
+    src = os.path.join(d, "rust_%s.rs" % tag)
+    open(src, "w").write(prog)
+    out = {}
+    for mode, flags in (("release", ["-O", "-C", "debug-assertions=off"]), ("debug", ["-C", "opt-level=0", "-C", "debug-assertions=on"])):
+        exe = os.path.join(d, "rust_%s_%s_%s" % (tag, mode, hashlib.sha256(prog.encode()).hexdigest()[:16]))
+        if not os.path.exists(exe):      # same program text (= same generator output) -> same binary
+            rc, log = vf.sh(["rustc", "--edition", "2021"] + flags + ["-o", exe + ".tmp%d" % os.getpid(), src], cwd=d, timeout=600)
+            if rc != 0:
+                raise RuntimeError("rustc (%s) failed on the scraped expressions:\n%s" % (mode, log[-3000:]))
+            os.replace(exe + ".tmp%d" % os.getpid(), exe)
+        lines, index = [], []
+        for i, s in enumerate(rsites):
+            for x in site_inputs(s, inputs):
+                if mode == "release" and "char_lift" in s.text and not is_scalar_value(x % (1 << 32)):
+                    continue          # from_u32_unchecked on a non-scalar value is undefined behaviour: not run
+                lines.append("%d %d" % (i, x)); index.append((i, x))
+        rc, o, e = vf.sh2([exe], input="\n".join(lines) + "\n", timeout=600)
+        ol = o.split()
+        if rc != 0 or len(ol) != len(lines):
+            raise RuntimeError("native rust (%s) run failed rc=%s: %s" % (mode, rc, e[-1000:]))
+        for (i, x), r in zip(index, ol):
+            out.setdefault(rsites[i].ident(""), {}).setdefault(mode, []).append((x, "P" if r == "P" else int(r)))
+    return out
+
+
+def c_arg_res(ty):
+    """(C expression converting `long long v`/`unsigned long long u` to the type, printf of result r)"""
+    if ty == "float":
+        return ("({ uint32_t b = (uint32_t) u; float f; memcpy(&f, &b, 4); f; })", 'uint32_t b; memcpy(&b, &r, 4); printf("%llu\\n", (unsigned long long) b);')
+    if ty == "double":
+        return ("({ uint64_t b = (uint64_t) u; double f; memcpy(&f, &b, 8); f; })", 'uint64_t b; memcpy(&b, &r, 8); printf("%llu\\n", (unsigned long long) b);')
+    if ty.startswith("u") or ty == "bool":
+        return ("(%s) u" % ty, 'printf("%llu\\n", (unsigned long long) r);')
+    return ("(%s) v" % ty, 'printf("%lld\\n", (long long) r);')
+
+
+def native_c(sites, inputs, c_text, tag="scalar"):
+    d = os.path.join(vf.BUILD, "scalar", "native")
+    os.makedirs(d, exist_ok=True)
+    csites = [s for s in sites if s.lang == "c"]
+    unions = "\n".join(m.group(0) for m in re.finditer(r"union \w+ \{[^}]*\};", c_text))
+    fns, arms = [], []
+    for i, s in enumerate(csites):
+        fns.append("static %s f%d(%s %s) { return %s; }" % (s.dst, i, s.src, s.var, s.text))
+        a, p = c_arg_res(s.src)[0], c_arg_res(s.dst)[1]
+        arms.append("case %d: { %s a = %s; %s r = f%d(a); %s break; }" % (i, s.src, a, s.dst, i, p))
+    prog = "#include <stdint.h>\n#include <stdbool.h>\n#include <stddef.h>\n#include <stdio.h>\n#include <string.h>\n#include <stdlib.h>\n" + unions + "\n" + "\n".join(fns) + """
+int main(void) {
+  int i; char buf[64];
+  while (scanf("%d %63s", &i, buf) == 2) {
+    long long v = strtoll(buf, 0, 10); unsigned long long u = buf[0] == '-' ? (unsigned long long) v : strtoull(buf, 0, 10);
+    switch (i) {
+""" + "\n".join("    " + a for a in arms) + """
+    default: printf("?\\n");
+    }
+  }
+  return 0;
+}
+"""
+    src = os.path.join(d, "c_%s.c" % tag)
+    open(src, "w").write(prog)
+    exe = os.path.join(d, "c_%s_%s" % (tag, hashlib.sha256(prog.encode()).hexdigest()[:16]))
+    if not os.path.exists(exe):
+        rc, log = vf.sh(["clang", "-O1", "-w", "-o", exe + ".tmp%d" % os.getpid(), src], cwd=d, timeout=600)
+        if rc != 0:
+            raise RuntimeError("clang failed on the scraped expressions:\n%s" % log[-3000:])
+        os.replace(exe + ".tmp%d" % os.getpid(), exe)
+    lines, index = [], []
+    for i, s in enumerate(csites):
+        for x in site_inputs(s, inputs):
+            lines.append("%d %d" % (i, x)); index.append((i, x))
+    rc, o, e = vf.sh2([exe], input="\n".join(lines) + "\n", timeout=600)
+    ol = o.split()
+    if rc != 0 or len(ol) != len(lines):
+        raise RuntimeError("native c run failed rc=%s: %s" % (rc, e[-1000:]))
+    out = {}
+    for (i, x), r in zip(index, ol):
+        out.setdefault(csites[i].ident(""), {}).setdefault("native", []).append((x, int(r)))
+    return out
+
+
+def judge(s, x, r):
+    """The property's own statement on one native evaluation: s = site, x = input, r = native result
+    ('P' = panic/trap).  Returns None if fine, else (expected, actual) description."""
+    if s.dir == "lower":
+        if not wit_value(s.ty, x):
+            return None
+        exp = spec_lower(s.ty, x)
+        if r == "P":
+            return (exp, "panic")
+        got = r % (1 << core_bits(s.ty))
+        return None if got == exp else (exp, got)
+    exp = spec_lift(s.ty, x % (1 << core_bits(s.ty)))
+    if exp is None:
+        return None
+    if r == "P":
+        return (exp, "panic")
+    return None if r == exp else (exp, r)
+
+
+# ============================================================================================
+# C04, backend half
+# ============================================================================================
+def bitcast_sem(cast, x):
+    """Python mirror of BitcastSpec.sem on an unsigned source value (cast: Coq constructor term)."""
+    c = cast.strip()
+    if c.startswith("(BSeq "):
+        inner = c[6:-1]
+        # split the two sub-terms at top level
+        depth, parts, cur = 0, [], ""
+        for ch in inner:
+            if ch == "(":
+                depth += 1
+            if ch == ")":
+                depth -= 1
+            if ch == " " and depth == 0 and cur:
+                parts.append(cur); cur = ""
+            else:
+                cur += ch
+        parts.append(cur)
+        return bitcast_sem(parts[1], bitcast_sem(parts[0], x))
+    if c in ("I64ToI32", "I64ToF32", "P64ToP", "I64ToL"):
+        return x % (1 << 32)
+    return x
+
+
+def cast_bits(cast):
+    """(from_bits, to_bits) of a Coq bitcast term"""
+    names = re.findall(r"[A-Z]\w+", cast.replace("BSeq", ""))
+    w = {"I32": 32, "F32": 32, "P": 32, "L": 32, "I64": 64, "F64": 64, "P64": 64}
+
+    def ft(n):
+        if n == "BNone32":
+            return 32, 32
+        if n == "BNone64":
+            return 64, 64
+        a, b = n.split("To")
+        return w[a], w[b]
+    return ft(names[0])[0], ft(names[-1])[1]
+
+
+def backend_casts_leg(ctx, R=None):
+    """C04 backend half.  Scrapes, for rust / c / moonbit, the text each backend emits for every
+    `Bitcast` that the probe world `cast_world()` makes reachable (variants mixing s32/s64/f32/f64/string/
+    list/tuple payloads; imports give the lowering direction case->joined, exports the lifting direction
+    joined->case), parses them with the Scalar/Expr.v machinery into Scalar/Generated.v (`all_casts`), and
+    decides  forall x, eval cast_expr x = BitcastSpec.sem cast x (mod 2^to)  with the verified normaliser
+    (`check_cast`, sound by NormalizeProofs.check_cast_sound; per-site theorems C04b_* in
+    Scalar/GeneratedProps.v, refutations with a witness for the ones that differ).
+
+    Returns a list of (lang, cast, ok, detail): ok True = every site of that (lang, cast) is proved equal to
+    the spec for all inputs; False = refuted, detail names the text, the witness input, expected and actual;
+    None = not expressible in the model (detail says why) or not scraped.  Also fills
+    ctx.coverage["backend_casts"] and reports a scrape failure through ctx.tie_broken (never silently).
+    Note: a False here is a deviation from the LETTER of lower_flat_variant (zero-extension); a lifting host
+    wraps i64 to i32, so it is invisible on a round trip — the C04 check decides how to judge it."""
+    if R is None:
+        R = regenerate()
+    rows, cov = [], {"sites": 0, "proved": 0, "refuted": 0, "unmodelled": 0, "by_lang": {}}
+    for lang, which, msg in R.errors:
+        if which in ("casts", "coq") and ctx is not None:
+            ctx.tie_broken("tie", "backend casts (%s): %s" % (lang, msg))
+    agg = {}
+    for k in R.casts:
+        key = (k.lang, k.name)
+        a = agg.setdefault(key, {"ok": True, "details": [], "n": 0})
+        a["n"] += 1
+        cov["sites"] += 1
+        if k.coq is None:
+            cov["unmodelled"] += 1
+            if a["ok"] is True:
+                a["ok"] = None
+            a["details"].append("unmodelled `%s`: %s" % (" ".join(k.text.split())[:120], k.unmodelled))
+            continue
+        v = R.cast_verdicts.get(k.ident)
+        if v is None:
+            a["ok"] = None
+            a["details"].append("no verdict (Generated.v did not build)")
+            continue
+        if v["check"]:
+            cov["proved"] += 1
+            continue
+        fb, tb = cast_bits(k.cast)
+        if v["bad"] is not None:
+            cov["refuted"] += 1
+            a["ok"] = False
+            x = v["bad"]
+            exp = bitcast_sem(k.cast, x % (1 << fb)) % (1 << tb)
+            probes = dict(zip([-1, 2147483648, 4294967295, 2147483647], v["probe"]))
+            srcr = None
+            a["details"].append("`%s` [%s: %s -> %s] at x=%d: spec 0x%x, emitted code gives %s  (%s)" % (
+                " ".join(k.text.split())[:120], k.var, k.src, k.dst, x, exp,
+                "; ".join("f(%d)=0x%x" % (p, r % (1 << tb)) for p, r in probes.items() if r != NONE and (p == x or p in (-1, 4294967295))),
+                "sign-extends where the canonical ABI zero-extends" if fb < tb else "differs"))
+        else:
+            a["ok"] = None if a["ok"] is not False else False
+            a["details"].append("`%s`: normaliser undecided and no disagreeing input found" % " ".join(k.text.split())[:120])
+            if ctx is not None:
+                ctx.tie_broken("tie", "backend cast %s %s: expression %r neither proved nor refuted" % (k.lang, k.name, k.text))
+    for (lang, name), a in sorted(agg.items()):
+        det = "%d site(s); " % a["n"] + (" | ".join(sorted(set(a["details"]))[:3]) if a["details"] else "proved equal to BitcastSpec.sem for all inputs")
+        rows.append((lang, name, a["ok"], det))
+        bl = cov["by_lang"].setdefault(lang, {"proved": [], "refuted": [], "unmodelled": []})
+        bl["proved" if a["ok"] is True else "refuted" if a["ok"] is False else "unmodelled"].append(name)
+    cov["theorem_file"] = "coq/theories/Scalar/GeneratedProps.v (C04b_*), soundness: NormalizeProofs.check_cast_sound"
+    cov["i32_to_i64"] = {l: next((("zero-extends (matches spec)" if ok else "SIGN-extends (spec: zero-extension)") for (ll, n, ok, d) in rows if ll == l and n == "I32ToI64"), "not scraped")
+                         for l in CAST_LANGS}
+    if ctx is not None:
+        ctx.coverage["backend_casts"] = cov
+    return rows
